@@ -20,5 +20,7 @@ print('replay (debug):', validate.build_replay('debug'))
 print('replay (release):', validate.build_replay('release'))
 from checks import step_replay
 print('step replay:', step_replay.build())
+from checks import c20
+print('two-configuration replay:', c20.cfg_exe('std'), c20.cfg_exe('alloc'))
 PY
 echo setup done
